@@ -191,7 +191,7 @@ def behaviour(db):
         except Exception as e:
             return [("layers", _exc(e))]
         for dl in layers:
-            pdus = set(FIXED_PDUS)
+            pdus = set(FIXED_PDUS) | set(R.SAMPLE_PDUS)
             try:
                 services = [s for s in dl.services if hasattr(s, "encode_request")]
             except Exception as e:
@@ -219,7 +219,7 @@ def behaviour(db):
                             pdus.add(pre.hex())
                 except Exception as e:
                     out.append((dl.short_name, "prefix", svc.short_name, _exc(e)))
-            for h in sorted(pdus)[:120]:
+            for h in sorted(pdus)[:160]:
                 try:
                     msgs = dl.decode(bytes.fromhex(h))
                     res = [(m.service.short_name, m.coding_object.short_name, L.tree(m.param_dict)) for m in msgs]
@@ -367,7 +367,7 @@ def _wperturb(task):
     except Exception as e:
         r = {"status": "skipped", "kind": None, "diffs": [], "tried": 0, "why": "harness:" + type(e).__name__ + ":" + str(e)[:120]}
     r.update(src=src, path=path, cls=cls, field=fname, k=k, family=family)
-    if family == "falsy" and "decl" not in r:
+    if family in ("falsy", "wide") and "decl" not in r:
         try:
             r["decl"] = L.declaring_class(L.resolve_path(_wdb(src)[0], path), fname)
         except Exception:
@@ -519,27 +519,58 @@ def enumerate_order_sites(srcs, seed, per_sig, rng):
     return tasks, len(by), sum(1 for (_, _, kinds) in by if len(kinds) > 1)
 
 
+def enumerate_wide_sites(srcs, seed, per_sig, rng):
+    """[(src, path, cls, field, k)] for the wide-number family: per (class, field, Python type of the number that is there now)
+    up to `per_sig` objects — a CODED-VALUE is an integer under A_UINT32 and a float under A_FLOAT64, coefficients likewise"""
+    by = collections.OrderedDict()
+    for src in srcs:
+        try:
+            db = open_db(src, seed)
+        except Exception:
+            continue
+        for path, cls, fname, kind in L.wide_sites(db):
+            if (cls, fname) in SKIP_FIELDS:
+                continue
+            by.setdefault((cls, fname, kind), []).append((src, path))
+    tasks = []
+    for (cls, fname, kind), lst in by.items():
+        picks = [lst[0]]
+        if per_sig > 1 and len(lst) > 1:
+            rest = lst[1:]
+            rng.shuffle(rest)
+            picks += rest[:per_sig - 1]
+        for j, (src, path) in enumerate(picks):
+            tasks.append((src, path, cls, fname, j))
+    return tasks, collections.Counter(kind for (_, _, kind) in by)
+
+
 def perturb_features(r):
     cls = "OdxLinkRef" if (r["field"] == "ref_docs") else r["cls"]
     if r.get("family") == "order":      # one signature per list field (the kind of re-ordering is in the witness)
         return [f"{cls}.{r['field']}", "list-order"]
-    if r.get("family") == "falsy":      # one signature per declaring class: LONG-NAME of 60 element classes is one template line
-        return [f"{r.get('decl') or cls}.{r['field']}", r.get("kind") or "falsy"]
+    if r.get("family") in ("falsy", "wide"):    # one signature per declaring class: LONG-NAME of 60 element classes is one template line
+        return [f"{r.get('decl') or cls}.{r['field']}", r.get("kind") or r.get("family")]
     return [f"{cls}.{r['field']}"]
 
 
 def report_perturbation(ctx, r):
     """turn one perturbation result into bookkeeping / a violation"""
     st = r["status"]
-    if r.get("family") in ("falsy", "order") and st == "skipped" and r.get("why") == "no-variant":
-        return          # not a scalar field / not a list with two items
-    if r.get("family") == "order":      # one evaluated case per order that was written and loaded
+    if r.get("family") in ("falsy", "order", "wide") and st == "skipped" and r.get("why") == "no-variant":
+        return          # not a scalar field / not a list with two items / not a number
+    if r.get("family") in ("order", "wide"):    # one evaluated case per order / number that was written and loaded
         tv = r.get("tried_values") or []
         for kind, val in tv[:-1] if st in ("same", "diff", "xml-parse-error", "write-raises") else tv:
             ctx.case(("perturb", r["src"], r["path"], r["field"], val), nontrivial=True)
-        for kind, val in tv:
-            ctx.histo("order_perturbation_kind", kind if kind.count("-") == 1 else "order-by-kind-" + kind.rsplit("-", 1)[-1])
-        ctx.count("order_perturbations", len(tv))
+        if r.get("family") == "order":
+            for kind, val in tv:
+                ctx.histo("order_perturbation_kind", kind if kind.count("-") == 1 else "order-by-kind-" + kind.rsplit("-", 1)[-1])
+            ctx.count("order_perturbations", len(tv))
+        else:
+            for kind, val in tv:
+                ctx.histo("wide_perturbation_kind", kind)
+            ctx.count("wide_perturbations", len(tv))
+            ctx.count("wide_sites")
     ctx.histo("perturbation_status", st)
     ctx.histo("perturbation_kind", r.get("kind"))
     ctx.case(("perturb", r["src"], r["path"], r["field"], str(r.get("value"))), nontrivial=st in ("same", "diff", "xml-parse-error"))
@@ -634,9 +665,30 @@ def order_images(members, order, how, tmpdir=None, aux=None):
         return None, L.err_class(e)
 
 
+def order_reference(members, aux=None):
+    """the database the members give in alphabetical order; when that order cannot be loaded, in the first of the reversed / rotated
+    orders that can (the failing order is then reported as depending on the file order instead of hiding the whole file set)"""
+    names = sorted(members)
+    err = None
+    for o in [names, names[::-1]] + [names[i:] + names[:i] for i in range(1, len(names))]:
+        ref, e = order_images(members, o, "trees", aux=aux)
+        err = err or e
+        if ref is not None:
+            return ref, None
+    return None, err
+
+
+def seq_members(name):
+    """the documents of a write-sequence variant as archive members (container name + .odx-d)"""
+    out = {}
+    for x in R.seq_variants()[name]:
+        out[ElementTree.fromstring(x).find("DIAG-LAYER-CONTAINER").get("ID") + ".odx-d"] = x.encode()
+    return out
+
+
 def order_checks(ctx, name, members, rng, n_orders, exhaustive_upto=4, aux=None):
     names = sorted(members)
-    ref, err = order_images(members, names, "trees", aux=aux)
+    ref, err = order_reference(members, aux)
     ctx.case(("order", name, tuple(names), "trees"))
     if ref is None:
         ctx.count("order_reference_unloadable")
@@ -1036,7 +1088,7 @@ def run(ctx):
         gens = [f"gen:{i}" for i in range(n_gen)]
     except Exception as e:
         ctx.notes.append("harness/odxgen not importable (" + type(e).__name__ + "): generated documents skipped")
-    whole = examples + rich + ["rich:rvars", "richall"] + seq_sources() + gens
+    whole = examples + rich + ["rich:rvars", "rich:rwide", "richall"] + seq_sources() + gens
     donors = examples[:1] + rich
 
     # ---- 0. write sequences (fresh processes; before this process has written anything)
@@ -1067,7 +1119,7 @@ def run(ctx):
         ctx.sample({"roundtrip": [(r["src"], r["objects"], len(r["findings"])) for r in rts[:10]]})
 
         # ---- 2. single-field perturbations: corpus first, then every (class, field)
-        srcs = examples[:1] + rich + gens[:4] + examples[1:]
+        srcs = examples[:1] + rich + ["rich:rwide"] + gens[:4] + examples[1:]
         tasks, n_fields = enumerate_sites(srcs, ctx.seed, 4 if big else 1, rng)
         ctx.count("class_field_pairs", n_fields)
         first = {}
@@ -1093,6 +1145,12 @@ def run(ctx):
         ctx.count("order_list_signatures", n_lists)
         ctx.count("order_list_signatures_mixed_kinds", n_mixed)
         jobs += [(s, p, c, f, k, None, donors, "order") for (s, p, c, f, k) in otasks]
+        # numbers at the edges of the number representations (beyond 2**53 / 64 bit / 32 bit, floats that need 17 digits, extreme
+        # exponents) for every integer / float valued field and the first item of every list of numbers
+        wtasks, wkinds = enumerate_wide_sites(srcs, ctx.seed, 3 if big else 1, ctx.sub_rng("wide"))
+        for kd, n in sorted(wkinds.items()):
+            ctx.count("wide_signatures_" + kd, n)
+        jobs += [(s, p, c, f, k, None, donors, "wide") for (s, p, c, f, k) in wtasks]
         results = pool.map(_wperturb, jobs, chunksize=8)
         for r in results:
             report_perturbation(ctx, r)
@@ -1108,6 +1166,9 @@ def run(ctx):
     rmembers = {n + ".odx-d": R.DOCS[n]().encode() for n in RICH}
     raux = {k: v for n in RICH for k, v in R.AUX[n].items()}
     order_checks(ctx, "rich-docs", rmembers, rng, 10, exhaustive_upto=4, aux=raux)
+    # layers that inherit across documents (PARENT-REF with DOCREF): the derived layer's container before / behind its parent's
+    for n in R.seq_variants():
+        order_checks(ctx, "seq:" + n, seq_members(n), rng, 2)
     order_model_correspondence(ctx, ctx.sub_rng("ordermodel"), 3000 if big else 400)
     dispatch_correspondence(ctx)
 
@@ -1175,15 +1236,17 @@ def replay(ctx, data):
         if w["src"].startswith("example:"):
             with zipfile.ZipFile(common.REPO / "examples" / w["src"].split(":", 1)[1]) as z:
                 members = {n: z.read(n) for n in z.namelist() if Path(n).suffix.lower().startswith(".odx")}
+        elif w["src"].startswith("seq:"):
+            members = seq_members(w["src"].split(":", 1)[1])
         else:
             members = {n + ".odx-d": R.DOCS[n]().encode() for n in RICH}
-        ref, _ = order_images(members, sorted(members), "trees")
+        ref, _ = order_reference(members)
         tmp = tempfile.mkdtemp(prefix="c11_")
         try:
             img, _ = order_images(members, w["order"], w["how"], tmp)
         finally:
             shutil.rmtree(tmp, ignore_errors=True)
-        return img == ref
+        return img is not None and img == ref
     if kind == "escape":
         import odxtools.writepdxfile as W
         s = "".join(chr(c) for c in w["cp"])
